@@ -124,7 +124,7 @@ def units_clause(model, rep, funcs):
                node=f.node, fn=f, clause="units", stmt="ZNCC min_distance")
 
 
-def _maxima_radius_rule(rep, funcs):
+def _maxima_radius_rule(rep, funcs, model=None):
     """maximum_filter(image, radius) looks exactly ceil(radius) pixels around each voxel."""
     f = funcs.get(PCC + "maximum_filter")
     if f is None:
@@ -142,6 +142,60 @@ def _maxima_radius_rule(rep, funcs):
     rep.instance("S17", f.loc())
     rep.ob("S17", f.anchor, "the maxima search looks ceil(radius) pixels around each voxel (ball footprint in a (2*ceil(r)+1)^3 box)", bool(ok and ok2), why, node=f.node,
            fn=f, clause="halo", stmt="maximum_filter radius")
+    # the shortcut that returns the image unfiltered is only right where the ball contains the centre voxel alone, i.e. for radius < 1 (at radius == 1 the six
+    # face neighbours belong to the ball: skipping the filter there reports adjacent voxels as separate maxima)
+    try:
+        from fractions import Fraction
+        from ..absint import Interp as _I, Const as _C
+        from ..domains.affine import AffineDomain as _AD, mkA as _mk
+        dom = _AD(model)
+        it = _I(model, dom, depth=0)
+        marker = _C("<the image>")
+        bad = []
+
+        def on_return(interp, fn_, st, val, env):
+            if fn_ is f and val is marker:
+                pcs = env.get("$pc", ())
+                # the path condition is a conjunction of comparisons of `radius` with constants: deciding it on the thresholds, the points between and beyond
+                # them is exact for such conditions
+                ths = set()
+                lin = True
+                for c_ in pcs:
+                    if not hasattr(c_, "diff"):
+                        continue
+                    d_ = c_.diff
+                    v0, v1 = dom.eval_form(d_, {"radius": Fraction(0)}), dom.eval_form(d_, {"radius": Fraction(1)})
+                    if v0 is None or v1 is None:
+                        lin = False
+                        continue
+                    if v1 != v0:
+                        ths.add(-v0 / (v1 - v0))
+                pts = sorted(ths | {Fraction(1)})
+                samples = set(pts) | {(a_ + b_) / 2 for a_, b_ in zip(pts, pts[1:])} | {pts[0] - 1, pts[-1] + 1}
+                w = None
+                for r_ in sorted(x for x in samples if x >= 1):
+                    asg = {"radius": r_}
+                    if all((lambda v_: v_ is not None and {"<": v_ < 0, "<=": v_ <= 0, ">": v_ > 0, ">=": v_ >= 0, "==": v_ == 0, "!=": v_ != 0}[c_.op])
+                           (dom.eval_form(c_.diff, asg)) for c_ in pcs if hasattr(c_, "diff")):
+                        w = float(r_)
+                        break
+                if w is not None or not lin:
+                    bad.append((st, w))
+
+        it.on_return.append(on_return)
+        it.run(f, args={f.param_names()[0]: marker, "radius": dom.sym("radius")})
+        rep.instance("S17", f.loc() + " [shortcut]")
+        oks = not bad
+        dets = ""
+        if bad:
+            st_, w_ = bad[0]
+            oks = False if w_ is not None else None
+            dets = f"`{norm_src(st_)}` is reached" + (f" for radius = {w_}: the ball of that radius has neighbours, the filter must run" if w_ is not None else
+                                                        " on a path that does not imply radius < 1")
+        rep.ob("S17", f.anchor, "the image is returned unfiltered only for radius < 1 (ball = centre voxel)", oks, dets, node=(bad[0][0] if bad else f.node), fn=f,
+               clause="halo", stmt="maximum_filter shortcut")
+    except (KeyError, AttributeError) as e:  # pragma: no cover
+        rep.note(f"maximum_filter shortcut not evaluated ({e!r})")
     g = funcs.get(PCC + "find_maxima")
     okg = False
     if g is not None:
@@ -372,7 +426,7 @@ def halo_clause(model, rep, funcs):
     rep.ob("S17", f.anchor, "the overlap handed to dask is the picker's depth plus the maxima margin, clipped to the image size", okm2,
            whym or f"depth given to map_overlap is `{norm_src(depth)}`", node=f.node, fn=f, clause="halo", stmt="depth margin clipped")
     # (d) the overlap covers the support of the per-chunk filter and of the maxima filter
-    radius_ok = _maxima_radius_rule(rep, funcs)
+    radius_ok = _maxima_radius_rule(rep, funcs, model)
     for cls in ("LoGPicker", "DoGPicker"):
         h = funcs.get(PCC + cls + ".get_params_and_depth")
         w = funcs.get(PCC + cls + ".pick_in_chunk")
@@ -620,6 +674,12 @@ def check(model, rep, tier):
     units_clause(model, rep, funcs)
     halo_clause(model, rep, funcs)
     bank_clause(model, rep, funcs)
+    # "the same whether the image is a numpy array or a dask array": the container-kind branch of pick_molecules only re-wraps (rule shared with C10)
+    from .generic import representation_branch_obligations
+    try:
+        representation_branch_obligations(model, rep, model.func("acryo/pick/_base.py::BasePickerModel.pick_molecules"), "numpy / dask")
+    except KeyError as e:
+        rep.error(f"anchor vanished: {e}")
     rep.floor("U.pick", 3, "(LoG, DoG, ZNCC min_distance)")
     rep.floor("S17", 9, "(map_overlap site, maximum_filter, LoG/DoG/template depth, find_maxima)")
     rep.floor("F.bank", 5, "(bank, lookup, arg-max, box, simple_pick)")
